@@ -24,6 +24,8 @@ def _input_expr(expr):
                 raise ValueError(f"Invalid expression '{expr}'") from e
         if not np.issubdtype(expr.dtype, np.integer):
             raise ValueError(f"Invalid expression '{expr}', must be integers")
+        if np.any(expr < 0):
+            raise ValueError(f"Invalid expression '{expr}', must be non-negative integers")
         expr = " ".join([str(i) for i in expr.flatten()])
         expr = stage1.parse_arg(expr)
         return expr
